@@ -1,4 +1,4 @@
-import MpVerif.C01.LemmasConvert15
+import MpVerif.C01.LemmasConvert17
 import MpVerif.C01.PropsObjective
 /-!
 # C01 — the reference converter is correct (property theorems only; round 5, audit item [HIGH])
@@ -23,148 +23,159 @@ def InFragment (m : NLModel) (cfg : Cfg) : Prop :=
 
 instance (m : NLModel) (cfg : Cfg) : Decidable (InFragment m cfg) := inferInstanceAs (Decidable (_ ∧ _ ∧ (_ → _)))
 
-/-- the delivered model of a conversion: Delivered of the abstract composition theorem, instantiated with the converter's output;
-variable domains = the bounds/types the converter created for original and result variables -/
+/-- the delivered model of a conversion: Delivered of the abstract composition theorem, instantiated with the converter's output.
+Variable domains: the bounds/types of the delivered model (`ConvOut.B`: created bounds narrowed by the propagation from the logical
+rows, auxiliary variables of the gadgets); rows: the blocks' rows and the algebraic rows `rootsD` — a logical row is delivered as the
+bounds `1..1` of its result variable, not as a row. -/
 def DeliveredC (o : ConvOut) (x y : Asg) : Prop :=
-  Delivered o.N o.defs (o.blocks.map Block.toStep) o.roots (DomB o.N o.B) x y
+  Delivered o.N o.defs (o.blocks.map Block.toStep) o.rootsD (DomB o.N o.B) x y
 
-theorem native_hyps (m : NLModel) (cfg : Cfg) (hacc : cfg.acc = .native) (hck : Checked m (convert m cfg)) :
-    (∀ d, d ∈ (convert m cfg).defs ↔ ∃ s ∈ (convert m cfg).blocks.map Block.toStep, s.toDef = d) ∧
-    Chain (convert m cfg).N ((convert m cfg).blocks.map Block.toStep) ∧
-    (∀ s ∈ (convert m cfg).blocks.map Block.toStep, StepOK (convert m cfg).N (DomB (convert m cfg).N (convert m cfg).B) s) := by
-  have hblocks : (convert m cfg).blocks =
-      convDefs cfg (sortRank (convert m cfg).defs) (flatAll m).S.B (convert m cfg).N := rfl
-  refine ⟨?_, ?_, ?_⟩
-  · intro d
-    have hm := convDefs_defs cfg (sortRank (convert m cfg).defs) (flatAll m).S.B (convert m cfg).N
-    constructor
-    · intro hd
-      have : d ∈ (convDefs cfg (sortRank (convert m cfg).defs) (flatAll m).S.B (convert m cfg).N).map (·.d) := by
-        rw [hm]; exact (mem_sortRank d _).mpr hd
-      obtain ⟨b, hb, hbd⟩ := List.mem_map.mp this
-      exact ⟨b.toStep, List.mem_map.mpr ⟨b, by rw [hblocks]; exact hb, rfl⟩, by rw [Block.toStep_def]; exact hbd⟩
-    · intro ⟨s, hs, hsd⟩
-      obtain ⟨b, hb, rfl⟩ := List.mem_map.mp hs
-      rw [Block.toStep_def] at hsd
-      have : b.d ∈ (convDefs cfg (sortRank (convert m cfg).defs) (flatAll m).S.B (convert m cfg).N).map (·.d) :=
-        List.mem_map.mpr ⟨b, by rw [← hblocks]; exact hb, rfl⟩
-      rw [hm] at this
-      rw [← hsd]; exact (mem_sortRank _ _).mp this
-  · rw [hblocks]; exact convDefs_chain cfg _ _ _
-  · intro s hs
-    obtain ⟨b, hb, rfl⟩ := List.mem_map.mp hs
-    rw [hblocks] at hb
-    obtain ⟨hlo, hvars, hkind⟩ := convDefs_native cfg hacc _ _ _ b hb
-    have hbd : b.d ∈ (convert m cfg).defs := by
-      have : b.d ∈ (convDefs cfg (sortRank (convert m cfg).defs) (flatAll m).S.B (convert m cfg).N).map (·.d) :=
-        List.mem_map.mpr ⟨b, hb, rfl⟩
-      rw [convDefs_defs] at this
-      exact (mem_sortRank _ _).mp this
-    have hres := hck.resN b.d hbd
-    have hvN : ∀ v ∈ b.d.f.vars, v < (convert m cfg).N := fun v hv =>
-      Nat.lt_trans (wf_vars_lt _ _ hck.wf b.d hbd v hv) hres
-    rcases hkind with hn | hn | ⟨hnn, hnc, body, c, hf, hcons⟩
-    · have : b.toStep = Step.native b.d b.lo := by simp [Block.toStep, hn]
-      rw [this, hlo]
-      exact stepOK_native' _ _ _ b.d (Nat.le_refl _) hres hvN
-    · have : b.toStep = Step.native b.d b.lo := by simp [Block.toStep, hn]
-      rw [this, hlo]
-      exact stepOK_native' _ _ _ b.d (Nat.le_refl _) hres hvN
-    · have : b.toStep = Step.ofGadget b.d (gLFC b.d.res body c) (convert m cfg).N := by
-        simp only [Block.toStep, hnn, hnc, Bool.or_self, Bool.false_eq_true, if_false, Step.ofGadget, hlo, hvars, hcons]
-        rfl
-      rw [this]
-      apply C01_compose_step_of_eq_gadget _ _ (fun _ => True) b.d _ _ (Nat.le_refl _) (fun _ _ => trivial)
-      · have := C01_gadget_lfc b.d.res body c (convert m cfg).N
-        rw [hf]; exact this
-      · intro k hk v hv
-        simp only [gLFC, List.mem_singleton] at hk
-        subst hk
-        simp only [Con.vars, List.map_append, List.mem_append, List.mem_map, List.map_cons, List.map_nil,
-          List.mem_singleton] at hv
-        have hv' : v ∈ b.d.f.vars ∨ v = b.d.res := by
-          rcases hv with ⟨p, hp, rfl⟩ | hv
-          · left; rw [hf]; simp only [Fun.vars, List.mem_map]; exact ⟨p, hp, rfl⟩
-          · right; exact hv
-        have hlt : v < (convert m cfg).N := by
-          rcases hv' with h | h
-          · exact hvN v h
-          · rw [h]; exact hres
-        show v < (convert m cfg).N + (gLFC b.d.res body c).vars.length
-        simp only [gLFC, List.length_nil, Nat.add_zero]; exact hlt
+theorem resBnd_logical (B : Bnds) (f : Fun) (h : isLogicalFun f = true) : resBnd B f = VarInfo.binary := by
+  cases f <;> first | rfl | simp [isLogicalFun] at h
+
+/-- the delivered bounds below `N` are the narrowed ones -/
+theorem bfin_agree (m : NLModel) (cfg : Cfg) : ∀ v, v < (convert m cfg).N → (convert m cfg).B v = (convert m cfg).B1 v := by
+  intro v hv
+  show ((convert m cfg).kept.foldl (fun B b => extB B b.lo b.vars) (convert m cfg).B1) v = _
+  apply foldl_extB_below
+  intro b hb
+  exact Nat.lt_of_lt_of_le hv (convDefs_lo_ge cfg _ _ _ b hb)
+
+theorem dom1_sub (m : NLModel) (cfg : Cfg) (hv : m.vok = true) (y : Asg)
+    (h : DomB (convert m cfg).N (convert m cfg).B y) : DomB (convert m cfg).N (convert m cfg).B0 y := by
+  intro v hv'
+  have := h v hv'
+  unfold inDom at this ⊢
+  rw [bfin_agree m cfg v hv'] at this
+  exact narrowB_sub _ _ (convert_factsBin m cfg hv) v _ this
+
+theorem dom1_of_facts (m : NLModel) (cfg : Cfg) (y : Asg)
+    (h : DomB (convert m cfg).N (convert m cfg).B0 y) (hs : ∀ f ∈ (convert m cfg).facts, y f.1 = f.2.1) :
+    DomB (convert m cfg).N (convert m cfg).B y := by
+  intro v hv'
+  have := narrow_dom _ _ _ y h hs v hv'
+  unfold inDom at this ⊢
+  rw [bfin_agree m cfg v hv']; exact this
 
 /-- membership of the block definitions / step-definition correspondence (both acceptance sets) -/
 theorem blocks_perm (m : NLModel) (cfg : Cfg) :
     (∀ d, d ∈ (convert m cfg).defs ↔ ∃ s ∈ (convert m cfg).blocks.map Block.toStep, s.toDef = d) ∧
-    (∀ b ∈ (convert m cfg).blocks, b.d ∈ (convert m cfg).defs) := by
-  have hblocks : (convert m cfg).blocks =
-      convDefs cfg (sortRank (convert m cfg).defs) (flatAll m).S.B (convert m cfg).N := rfl
-  have hm := convDefs_defs cfg (sortRank (convert m cfg).defs) (flatAll m).S.B (convert m cfg).N
+    (∀ b ∈ (convert m cfg).blocks, b.d ∈ (convert m cfg).defs) ∧
+    (∀ b ∈ (convert m cfg).kept, b.d ∈ (convert m cfg).defs) := by
+  let rm := removedDef (convert m cfg).facts (nRefs (convert m cfg).defs (convert m cfg).fixTrue (convert m cfg).rootsD (convert m cfg).obj)
+  let mk : Def → Block := fun d => { d := d, vars := [], cons := [], lo := (convert m cfg).N, native := false, removed := true }
+  have hblocks : (convert m cfg).blocks = ((convert m cfg).defs.filter rm).map mk ++ (convert m cfg).kept := rfl
+  have hkept : (convert m cfg).kept =
+      convDefs cfg (sortRank ((convert m cfg).defs.filter (fun d => !rm d))) (convert m cfg).B1 (convert m cfg).N := rfl
+  have hm := convDefs_defs cfg (sortRank ((convert m cfg).defs.filter (fun d => !rm d))) (convert m cfg).B1 (convert m cfg).N
+  have hk : ∀ b ∈ (convert m cfg).kept, b.d ∈ (convert m cfg).defs := by
+    intro b hb
+    have : b.d ∈ (convDefs cfg (sortRank ((convert m cfg).defs.filter (fun d => !rm d))) (convert m cfg).B1 (convert m cfg).N).map (·.d) :=
+      List.mem_map.mpr ⟨b, by rw [← hkept]; exact hb, rfl⟩
+    rw [hm] at this
+    exact (List.mem_filter.mp ((mem_sortRank _ _).mp this)).1
   have hmem : ∀ b ∈ (convert m cfg).blocks, b.d ∈ (convert m cfg).defs := by
     intro b hb
-    have : b.d ∈ (convDefs cfg (sortRank (convert m cfg).defs) (flatAll m).S.B (convert m cfg).N).map (·.d) :=
-      List.mem_map.mpr ⟨b, by rw [← hblocks]; exact hb, rfl⟩
-    rw [hm] at this
-    exact (mem_sortRank _ _).mp this
-  refine ⟨?_, hmem⟩
+    rw [hblocks, List.mem_append] at hb
+    rcases hb with hb | hb
+    · obtain ⟨d, hd, rfl⟩ := List.mem_map.mp hb
+      exact (List.mem_filter.mp hd).1
+    · exact hk b hb
+  refine ⟨?_, hmem, hk⟩
   intro d
   constructor
   · intro hd
-    have : d ∈ (convDefs cfg (sortRank (convert m cfg).defs) (flatAll m).S.B (convert m cfg).N).map (·.d) := by
-      rw [hm]; exact (mem_sortRank d _).mpr hd
-    obtain ⟨b, hb, hbd⟩ := List.mem_map.mp this
-    exact ⟨b.toStep, List.mem_map.mpr ⟨b, by rw [hblocks]; exact hb, rfl⟩, by rw [Block.toStep_def]; exact hbd⟩
+    by_cases hr : rm d = true
+    · refine ⟨(mk d).toStep, List.mem_map.mpr ⟨mk d, ?_, rfl⟩, Block.toStep_def _⟩
+      rw [hblocks]; exact List.mem_append_left _ (List.mem_map.mpr ⟨d, List.mem_filter.mpr ⟨hd, hr⟩, rfl⟩)
+    · have : d ∈ (convDefs cfg (sortRank ((convert m cfg).defs.filter (fun d => !rm d))) (convert m cfg).B1 (convert m cfg).N).map (·.d) := by
+        rw [hm]; exact (mem_sortRank d _).mpr (List.mem_filter.mpr ⟨hd, by simpa using hr⟩)
+      obtain ⟨b, hb, hbd⟩ := List.mem_map.mp this
+      refine ⟨b.toStep, List.mem_map.mpr ⟨b, ?_, rfl⟩, by rw [Block.toStep_def]; exact hbd⟩
+      rw [hblocks]; exact List.mem_append_right _ (by rw [hkept]; exact hb)
   · intro ⟨s, hs, hsd⟩
     obtain ⟨b, hb, rfl⟩ := List.mem_map.mp hs
     rw [Block.toStep_def] at hsd
     rw [← hsd]; exact hmem b hb
 
-/-- the linear acceptance set: every block is a valid step (gadget theorems + lowering) -/
-theorem linear_hyps (m : NLModel) (cfg : Cfg) (hacc : cfg.acc = .linear) (hck : Checked m (convert m cfg))
-    (hlin : (convert m cfg).checksLin cfg = true) :
-    Chain (convert m cfg).N ((convert m cfg).blocks.map Block.toStep) ∧
-    (∀ s ∈ (convert m cfg).blocks.map Block.toStep, StepOK (convert m cfg).N (DomB (convert m cfg).N (convert m cfg).B) s) := by
-  have hblocks : (convert m cfg).blocks =
-      convDefs cfg (sortRank (convert m cfg).defs) (flatAll m).S.B (convert m cfg).N := rfl
-  simp only [ConvOut.checksLin, Bool.and_eq_true, decide_eq_true_eq, List.all_eq_true] at hlin
-  obtain ⟨⟨hM, hbl⟩, hdefs⟩ := hlin
-  have hstruct := convDefs_linear cfg hacc (convert m cfg).N (flatAll m).S.B (sortRank (convert m cfg).defs)
-    (flatAll m).S.B (convert m cfg).N (Nat.le_refl _) (fun _ _ => rfl)
-  -- the final bounds agree with the flattening bounds on original/result variables
-  have hBfin : ∀ v, v < (convert m cfg).N → (convert m cfg).B v = (flatAll m).S.B v := by
-    intro v hv
-    show ((convert m cfg).blocks.foldl (fun B b => extB B b.lo b.vars) (flatAll m).S.B) v = _
-    apply foldl_extB_below
-    intro b hb
-    exact Nat.lt_of_lt_of_le hv (hstruct b (by rw [← hblocks]; exact hb)).1
-  refine ⟨by rw [hblocks]; exact convDefs_chain cfg _ _ _, ?_⟩
-  intro s hs
-  obtain ⟨b, hb, rfl⟩ := List.mem_map.mp hs
-  have hbd := (blocks_perm m cfg).2 b hb
-  have hres := hck.resN b.d hbd
-  have hvN : ∀ v ∈ b.d.f.vars, v < (convert m cfg).N := fun v hv =>
-    Nat.lt_trans (wf_vars_lt _ _ hck.wf b.d hbd v hv) hres
-  obtain ⟨hlo, hkind⟩ := hstruct b (by rw [← hblocks]; exact hb)
+/-- blocks of the native acceptance set are valid steps (any domain predicate) -/
+theorem kept_native (cfg : Cfg) (hacc : cfg.acc = .native) (N : Nat) (L : List Def) (B1 : Bnds) (Dom : Asg → Prop)
+    (hL : ∀ d ∈ L, d.res < N ∧ ∀ v ∈ d.f.vars, v < N) :
+    ∀ b ∈ convDefs cfg L B1 N, StepOK N Dom b.toStep := by
+  intro b hb
+  have hrem := convDefs_removed cfg L B1 N b hb
+  obtain ⟨hlo, hvars, hkind⟩ := convDefs_native cfg hacc _ _ _ b hb
+  have hbd : b.d ∈ L := by
+    have : b.d ∈ (convDefs cfg L B1 N).map (·.d) := List.mem_map.mpr ⟨b, hb, rfl⟩
+    rw [convDefs_defs] at this; exact this
+  obtain ⟨hres, hvN⟩ := hL b.d hbd
+  rcases hkind with hn | hn | ⟨hnn, hnc, body, c, hf, hcons⟩
+  · have : b.toStep = Step.native b.d b.lo := by simp [Block.toStep, hn, hrem]
+    rw [this, hlo]
+    exact stepOK_native' _ _ _ b.d (Nat.le_refl _) hres hvN
+  · have : b.toStep = Step.native b.d b.lo := by simp [Block.toStep, hn, hrem]
+    rw [this, hlo]
+    exact stepOK_native' _ _ _ b.d (Nat.le_refl _) hres hvN
+  · have : b.toStep = Step.ofGadget b.d (gLFC b.d.res body c) N := by
+      simp only [Block.toStep, hrem, hnn, hnc, Bool.or_self, Bool.false_eq_true, if_false, Step.ofGadget, hlo, hvars, hcons]
+      rfl
+    rw [this]
+    apply C01_compose_step_of_eq_gadget _ _ (fun _ => True) b.d _ _ (Nat.le_refl _) (fun _ _ => trivial)
+    · have := C01_gadget_lfc b.d.res body c N
+      rw [hf]; exact this
+    · intro k hk v hv
+      simp only [gLFC, List.mem_singleton] at hk
+      subst hk
+      simp only [Con.vars, List.map_append, List.mem_append, List.mem_map, List.map_cons, List.map_nil,
+        List.mem_singleton] at hv
+      have hv' : v ∈ b.d.f.vars ∨ v = b.d.res := by
+        rcases hv with ⟨p, hp, rfl⟩ | hv
+        · left; rw [hf]; simp only [Fun.vars, List.mem_map]; exact ⟨p, hp, rfl⟩
+        · right; exact hv
+      have hlt : v < N := by
+        rcases hv' with h | h
+        · exact hvN v h
+        · rw [h]; exact hres
+      show v < N + (gLFC b.d.res body c).vars.length
+      simp only [gLFC, List.length_nil, Nat.add_zero]; exact hlt
+
+/-- blocks of the linear acceptance set are valid steps w.r.t. the delivered bounds `Bf` (gadget theorems + lowering).  `Bf` may be
+narrowed bounds: results of logical types and logical arguments only take 0/1 values under them. -/
+theorem kept_linear (cfg : Cfg) (hacc : cfg.acc = .linear) (N : Nat) (L : List Def) (B1 Bf : Bnds)
+    (hBf : ∀ v, v < N → Bf v = B1 v) (hM : cfg.opts.bigM ≤ 0)
+    (hL : ∀ d ∈ L, d.res < N ∧ (∀ v ∈ d.f.vars, v < N) ∧ d.f.inFrag = true ∧
+      (isLogicalFun d.f = true → ∀ y, DomB N Bf y → (y d.res = 0 ∨ y d.res = 1)) ∧
+      (∀ a ∈ logicalArgs d.f, ∀ y, DomB N Bf y → (y a = 0 ∨ y a = 1)) ∧
+      (∀ a ∈ logicalArgs d.f, (Bf a).isBinary = true) ∧ linDefOK Bf d = true)
+    (hbl : ∀ b ∈ convDefs cfg L B1 N, b.refusal.isNone = true ∧ b.localRows N = true) :
+    ∀ b ∈ convDefs cfg L B1 N, StepOK N (DomB N Bf) b.toStep := by
+  intro b hb
+  have hrem := convDefs_removed cfg L B1 N b hb
+  have hstruct := convDefs_linear cfg hacc N B1 L B1 N (Nat.le_refl _) (fun _ _ => rfl)
+  have hbd : b.d ∈ L := by
+    have : b.d ∈ (convDefs cfg L B1 N).map (·.d) := List.mem_map.mpr ⟨b, hb, rfl⟩
+    rw [convDefs_defs] at this; exact this
+  obtain ⟨hres, hvN, hfr, h01r, h01a, hcnt, hldef⟩ := hL b.d hbd
+  obtain ⟨hlo, hkind⟩ := hstruct b hb
   rcases hkind with ⟨hc, hnn⟩ | ⟨hnc, hnn, Br, hBr, hvars, hraw, hcons, href⟩
-  · have : b.toStep = Step.native b.d b.lo := by simp [Block.toStep, hc]
+  · have : b.toStep = Step.native b.d b.lo := by simp [Block.toStep, hc, hrem]
     rw [this]
     exact stepOK_native' _ _ _ b.d hlo (Nat.lt_of_lt_of_le hres hlo) (fun v hv => Nat.lt_of_lt_of_le (hvN v hv) hlo)
   · obtain ⟨hrefn, hlocal⟩ := hbl b hb
     have hrefn' : b.refusal = none := by simpa using hrefn
     simp only [Block.localRows, List.all_eq_true, Bool.or_eq_true, Bool.and_eq_true, decide_eq_true_eq] at hlocal
-    have hBr' : ∀ v, v < (convert m cfg).N → Br v = (convert m cfg).B v := fun v hv => by rw [hBr v hv, hBfin v hv]
+    have hBr' : ∀ v, v < N → Br v = Bf v := fun v hv => by rw [hBr v hv, hBf v hv]
     have hloc : ∀ c ∈ (gadgetOf b.d Br cfg.opts b.lo).cons, ∀ v ∈ c.vars,
-        v < (convert m cfg).N ∨ (b.lo ≤ v ∧ v < b.lo + (gadgetOf b.d Br cfg.opts b.lo).vars.length) := by
+        v < N ∨ (b.lo ≤ v ∧ v < b.lo + (gadgetOf b.d Br cfg.opts b.lo).vars.length) := by
       intro c hc v hv
       rw [← hraw] at hc; rw [← hvars]
       exact hlocal c hc v hv
-    have hrawstep := raw_stepOK (convert m cfg).N b.lo (convert m cfg).B Br cfg.opts b.d hlo hBr'
-      (hck.typed b.d hbd) (hdefs b.d hbd) hres hvN
+    have hrawstep := raw_stepOK N b.lo Bf Br cfg.opts b.d hlo hBr' hfr h01r h01a hcnt hldef hres hvN
       (fun c hc v hv => by
         rcases hloc c hc v hv with h | ⟨_, h⟩
         · exact Nat.lt_of_lt_of_le h (Nat.le_trans hlo (Nat.le_add_right _ _))
         · exact h)
-    have hstep := stepOK_lowered (convert m cfg).N b.lo (convert m cfg).B
+    have hstep := stepOK_lowered N b.lo Bf
       (extB Br b.lo (gadgetOf b.d Br cfg.opts b.lo).vars) cfg.opts b.d (gadgetOf b.d Br cfg.opts b.lo)
       (lowerCons (extB Br b.lo (gadgetOf b.d Br cfg.opts b.lo).vars) cfg.opts (gadgetOf b.d Br cfg.opts b.lo).cons)
       hM rfl (by rw [← hvars, ← hraw]; exact href hrefn') hrawstep
@@ -174,56 +185,157 @@ theorem linear_hyps (m : NLModel) (cfg : Cfg) (hacc : cfg.acc = .linear) (hck : 
         Deliv := fun y => auxOk b.lo y (gadgetOf b.d Br cfg.opts b.lo).vars ∧
           ∀ c ∈ (lowerCons (extB Br b.lo (gadgetOf b.d Br cfg.opts b.lo).vars) cfg.opts (gadgetOf b.d Br cfg.opts b.lo).cons).cons, c.sat y,
         lo := b.lo, hi := b.lo + (gadgetOf b.d Br cfg.opts b.lo).vars.length } := by
-      simp only [Block.toStep, hnn, hnc, Bool.or_self, Bool.false_eq_true, if_false]
+      simp only [Block.toStep, hrem, hnn, hnc, Bool.or_self, Bool.false_eq_true, if_false]
       rw [hcons, hraw, hvars]
     rw [this]; exact hstep
 
-/-- the steps of either acceptance set are valid -/
+theorem chain_removed (N : Nat) (mk : Def → Block) (hmk : ∀ d, (mk d).toStep.lo = N ∧ (mk d).toStep.hi = N) (rest : List Step)
+    (h : Chain N rest) : ∀ l : List Def, Chain N ((l.map mk).map Block.toStep ++ rest) := by
+  intro l
+  induction l with
+  | nil => exact h
+  | cons d t ih =>
+    simp only [List.map_cons, List.cons_append, Chain]
+    obtain ⟨h1, h2⟩ := hmk d
+    rw [h1, h2]
+    exact ⟨Nat.le_refl _, Nat.le_refl _, ih⟩
+
+/-- the steps of either acceptance set are valid w.r.t. the delivered bounds -/
 theorem steps_hyps (m : NLModel) (cfg : Cfg) (hfr : InFragment m cfg) :
     Chain (convert m cfg).N ((convert m cfg).blocks.map Block.toStep) ∧
     (∀ s ∈ (convert m cfg).blocks.map Block.toStep, StepOK (convert m cfg).N (DomB (convert m cfg).N (convert m cfg).B) s) := by
   obtain ⟨hv, hc, hl⟩ := hfr
   have hck := checked_of_vok m cfg hv hc
-  cases hacc : cfg.acc with
-  | native => exact (native_hyps m cfg hacc hck).2
-  | linear => exact linear_hyps m cfg hacc hck (hl hacc)
+  let rm := removedDef (convert m cfg).facts (nRefs (convert m cfg).defs (convert m cfg).fixTrue (convert m cfg).rootsD (convert m cfg).obj)
+  let mk : Def → Block := fun d => { d := d, vars := [], cons := [], lo := (convert m cfg).N, native := false, removed := true }
+  have hblocks : (convert m cfg).blocks = ((convert m cfg).defs.filter rm).map mk ++ (convert m cfg).kept := rfl
+  have hkept : (convert m cfg).kept =
+      convDefs cfg (sortRank ((convert m cfg).defs.filter (fun d => !rm d))) (convert m cfg).B1 (convert m cfg).N := rfl
+  have hB1 : (convert m cfg).B1 = narrowB (convert m cfg).B0 (convert m cfg).facts := rfl
+  have hfb := convert_factsBin m cfg hv
+  have hvarsN : ∀ d ∈ (convert m cfg).defs, ∀ v ∈ d.f.vars, v < (convert m cfg).N := fun d hd v hv' =>
+    Nat.lt_trans (wf_vars_lt _ _ hck.wf d hd v hv') (hck.resN d hd)
+  have hLmem : ∀ d ∈ sortRank ((convert m cfg).defs.filter (fun d => !rm d)), d ∈ (convert m cfg).defs :=
+    fun d hd => (List.mem_filter.mp ((mem_sortRank _ _).mp hd)).1
+  have hmkstep : ∀ d, (mk d).toStep = { d with Deliv := fun _ => True, lo := (convert m cfg).N, hi := (convert m cfg).N } :=
+    fun d => by simp [Block.toStep, mk]
+  constructor
+  · rw [hblocks, List.map_append]
+    apply chain_removed _ mk (fun d => by rw [hmkstep d]; exact ⟨rfl, rfl⟩)
+    rw [hkept]; exact convDefs_chain cfg _ _ _
+  · intro s hs
+    rw [hblocks, List.map_append, List.mem_append] at hs
+    rcases hs with hs | hs
+    · obtain ⟨b, hb, rfl⟩ := List.mem_map.mp hs
+      obtain ⟨d, hd, rfl⟩ := List.mem_map.mp hb
+      obtain ⟨hd1, hd2⟩ := List.mem_filter.mp hd
+      rw [hmkstep d]
+      exact removed_stepOK _ _ (convert m cfg).B0 (convert m cfg).facts _ d
+        (fun v hv' => by rw [bfin_agree m cfg v hv', hB1]) (hck.resN d hd1) (hvarsN d hd1) hd2
+    · obtain ⟨b, hb, rfl⟩ := List.mem_map.mp hs
+      rw [hkept] at hb
+      cases hacc : cfg.acc with
+      | native =>
+        exact kept_native cfg hacc _ _ _ _ (fun d hd => ⟨hck.resN d (hLmem d hd), hvarsN d (hLmem d hd)⟩) b hb
+      | linear =>
+        have hlin := hl hacc
+        simp only [ConvOut.checksLin, Bool.and_eq_true, decide_eq_true_eq, List.all_eq_true] at hlin
+        obtain ⟨⟨hM, hbl⟩, hdefs⟩ := hlin
+        refine kept_linear cfg hacc _ _ _ (convert m cfg).B (bfin_agree m cfg) hM ?_ ?_ b hb
+        · intro d hd
+          have hdd := hLmem d hd
+          have ht := hck.typed d hdd
+          have ht' := ht
+          simp only [typedDef, Bool.and_eq_true, decide_eq_true_eq] at ht'
+          obtain ⟨⟨hb0, hfrag⟩, _⟩ := ht'
+          have h01 : ∀ a, a < (convert m cfg).N → isBin01 ((convert m cfg).B0 a) = true →
+              ∀ y, DomB (convert m cfg).N (convert m cfg).B y → (y a = 0 ∨ y a = 1) := by
+            intro a haN hbin y hy
+            have := hy a haN
+            unfold inDom at this
+            rw [bfin_agree m cfg a haN, hB1] at this
+            exact narrowB_01 _ _ hfb a hbin _ this
+          refine ⟨hck.resN d hdd, hvarsN d hdd, hfrag, ?_, ?_, ?_, hdefs d hdd⟩
+          · intro hlog
+            apply h01 d.res (hck.resN d hdd)
+            rw [hb0, resBnd_logical _ _ hlog]; decide
+          · intro a ha
+            exact h01 a (hvarsN d hdd a (logicalArgs_vars d.f a ha)) (typed_logicalArgs _ d ht a ha)
+          · intro a ha
+            rw [bfin_agree m cfg a (hvarsN d hdd a (logicalArgs_vars d.f a ha)), hB1]
+            exact narrowB_isBinary _ _ hfb a (typed_logicalArgs _ d ht a ha)
+        · intro b' hb'
+          exact hbl b' (by rw [hblocks]; exact List.mem_append_right _ (by rw [hkept]; exact hb'))
+
+/-- the logical rows follow from the delivered bounds (no contradicting fixings) -/
+theorem lroots_of_dom (m : NLModel) (cfg : Cfg) (hv : m.vok = true) (hnc : (convert m cfg).infeasible = false) (y : Asg)
+    (hy : DomB (convert m cfg).N (convert m cfg).B y) (hr : ∀ r ∈ (convert m cfg).rootsD, r.sat y) :
+    ∀ r ∈ (convert m cfg).roots, r.sat y := by
+  intro r hrr
+  rcases root_fixTrue m cfg hv r hrr with h | ⟨v, rfl, hvf⟩
+  · exact hr r h
+  · obtain ⟨k, hk⟩ := rootFacts_has _ 0 v hvf
+    have hmem : (v, (1 : Rat), k) ∈ (convert m cfg).facts := narrowFacts_sub _ _ _ hk
+    have hfo := factOf_noconflict (F := (convert m cfg).facts) hnc hmem
+    have hN : v < (convert m cfg).N := (structural_of_vok m cfg hv).rootsN _ hrr (1, v) (by simp)
+    have := hy v hN
+    unfold inDom at this
+    rw [bfin_agree m cfg v hN] at this
+    have hB1 : (convert m cfg).B1 = narrowB (convert m cfg).B0 (convert m cfg).facts := rfl
+    rw [hB1, narrowB_some hfo] at this
+    have hy1 := fixed_admits this
+    simp only [Root.sat, inRange, evalLin_cons, evalLin_nil, hy1]
+    refine ⟨fun l hl => ?_, fun u hu => by simp at hu⟩
+    simp at hl; subst hl; decide +kernel
 
 /-- **C01_convert_equiv** — for every NL model of the fragment, both acceptance sets (`native`: linear rows + the fragment's
 functional types, linear functional constraints converted; `linear`: only linear rows — every functional constraint reformulated by its
 gadget, indicator rows lowered to big-M rows) and default options: a point satisfies the NL model (variable bounds/types,
 algebraic rows, logical rows — expression trees evaluated directly) **iff** values of the result and auxiliary variables exist
-that satisfy the model `convert` delivers.  No hypothesis about a conversion run; `InFragment` is decidable on the input. -/
+that satisfy the model `convert` delivers — with the bounds narrowed by the downward propagation from the logical rows
+(`FixAsTrue`, `PropagateResult` through not/and/or), the gadgets computed on the narrowed bounds, and nothing delivered for a
+definition the propagation made unused.  No hypothesis about a conversion run; `InFragment` is decidable on the input. -/
 theorem C01_convert_equiv (m : NLModel) (cfg : Cfg) (x : Asg) (hfr : InFragment m cfg) :
     m.sat x ↔ ∃ y, DeliveredC (convert m cfg) x y := by
   obtain ⟨hchain, hok⟩ := steps_hyps m cfg hfr
   obtain ⟨hv, hc, _⟩ := hfr
   have hck := checked_of_vok m cfg ‹m.vok = true› hc
+  have hnc : (convert m cfg).infeasible = false := by
+    simp only [ConvOut.checksSem, Bool.and_eq_true, Bool.not_eq_true'] at hc; exact hc.2
   have hperm := (blocks_perm m cfg).1
   have hwf : WF m.n0 (convert m cfg).defs := hck.wf
   have hvarsN : ∀ d ∈ (convert m cfg).defs, ∀ v ∈ d.f.vars, v < (convert m cfg).N := fun d hd v hv' =>
     Nat.lt_trans (wf_vars_lt _ _ hck.wf d hd v hv') (hck.resN d hd)
-  have hcomp : ∀ (hx : ∀ v, v < m.n0 → inDom m.B0 x v),
-      NLsat (convert m cfg).defs (convert m cfg).roots x ↔ ∃ y, DeliveredC (convert m cfg) x y := by
-    intro hx
-    exact C01_compose (convert m cfg).B m.n0 (convert m cfg).N (convert m cfg).defs _ (convert m cfg).roots
-      (DomB (convert m cfg).N (convert m cfg).B)
-      (fun z z' hag hz v hv' => by unfold inDom; rw [hag v hv']; exact hz v hv')
-      hperm hwf hck.resN hck.rootsN hck.rootsFin hck.cov hchain hok
-      (fun y hy d hd => funOK_of_typed _ _ d y (hck.typed d hd) (hvarsN d hd) hy)
-      x (exact_dom m.n0 _ _ m.B0 _ x hwf hck.defd hck.b0 hck.typed hx)
+  have hDom : ∀ z z' : Asg, (∀ v, v < (convert m cfg).N → z' v = z v) →
+      DomB (convert m cfg).N (convert m cfg).B z → DomB (convert m cfg).N (convert m cfg).B z' :=
+    fun z z' hag hz v hv' => by unfold inDom; rw [hag v hv']; exact hz v hv'
   constructor
   · intro ⟨hx, hcons, hl⟩
-    exact (hcomp hx).mp ((convert_roots_val m cfg x hv hwf).mpr ⟨hcons, hl⟩)
+    have hnl := (convert_roots_val m cfg x hv hwf).mpr ⟨hcons, hl⟩
+    have hd0 := exact_dom m.n0 _ _ m.B0 _ x hwf hck.defd hck.b0 hck.typed hx
+    have hd1 := dom1_of_facts m cfg _ hd0 (convert_factsSound m cfg hv x hd0 hnl)
+    obtain ⟨y, hdel, _⟩ := delivered_of_exact m.n0 _ _ _ (convert m cfg).roots _ hDom hperm hwf hck.resN hck.rootsN hchain hok x hd1 hnl
+    exact ⟨y, hdel.1, hdel.2.1, hdel.2.2.1, fun r hr => hdel.2.2.2 r (List.mem_append_left _ hr)⟩
   · intro ⟨y, hdel⟩
+    have hd0y := dom1_sub m cfg hv y hdel.2.1
     have hx : ∀ v, v < m.n0 → inDom m.B0 x v := by
       intro v hv'
       have hund : ∀ d ∈ (convert m cfg).defs, d.res ≠ v := fun d hd he => by
         have := wf_res_ge hwf d hd; rw [he] at this; omega
       have hyx := hdel.1 v (Nat.lt_of_lt_of_le hv' hck.n0N) hund
-      have := hdel.2.1 v (Nat.lt_of_lt_of_le hv' hck.n0N)
+      have := hd0y v (Nat.lt_of_lt_of_le hv' hck.n0N)
       unfold inDom at this ⊢
       rw [hyx, hck.b0 v hv'] at this; exact this
-    have := (convert_roots_val m cfg x hv hwf).mp ((hcomp hx).mpr ⟨y, hdel⟩)
+    have hdel' : Delivered (convert m cfg).N (convert m cfg).defs ((convert m cfg).blocks.map Block.toStep) (convert m cfg).roots
+        (DomB (convert m cfg).N (convert m cfg).B) x y :=
+      ⟨hdel.1, hdel.2.1, hdel.2.2.1, lroots_of_dom m cfg hv hnc y hdel.2.1 hdel.2.2.2⟩
+    have hrel := relaxed_of_delivered _ _ _ _ _ hperm hok x y hdel'
+    have hd0 := exact_dom m.n0 _ _ m.B0 _ x hwf hck.defd hck.b0 hck.typed hx
+    have hnl := (compose_relaxed (convert m cfg).B0 m.n0 (convert m cfg).N (convert m cfg).defs (convert m cfg).roots x
+      hwf hck.resN hck.rootsN hck.rootsFin hck.cov
+      (fun d hd => funOK_of_typed _ _ d _ (hck.typed d hd) (hvarsN d hd) hd0)).mpr
+      ⟨y, fun d hd => funOK_of_typed _ _ d y (hck.typed d hd) (hvarsN d hd) hd0y, hrel⟩
+    have := (convert_roots_val m cfg x hv hwf).mp hnl
     exact ⟨hx, this.1, this.2⟩
 
 /-- **C01_convert_objective** — the objective clause for the reference converter, both acceptance sets: at every point satisfying
@@ -238,26 +350,38 @@ theorem C01_convert_objective (m : NLModel) (cfg : Cfg) (x : Asg) (hfr : InFragm
   obtain ⟨hchain, hok⟩ := steps_hyps m cfg hfr
   obtain ⟨hv, hc, _⟩ := hfr
   have hck := checked_of_vok m cfg ‹m.vok = true› hc
+  have hnc : (convert m cfg).infeasible = false := by
+    simp only [ConvOut.checksSem, Bool.and_eq_true, Bool.not_eq_true'] at hc; exact hc.2
   have hperm := (blocks_perm m cfg).1
   have hwf : WF m.n0 (convert m cfg).defs := hck.wf
   have hvarsN : ∀ d ∈ (convert m cfg).defs, ∀ v ∈ d.f.vars, v < (convert m cfg).N := fun d hd v hv' =>
     Nat.lt_trans (wf_vars_lt _ _ hck.wf d hd v hv') (hck.resN d hd)
+  have hDom : ∀ z z' : Asg, (∀ v, v < (convert m cfg).N → z' v = z v) →
+      DomB (convert m cfg).N (convert m cfg).B z → DomB (convert m cfg).N (convert m cfg).B z' :=
+    fun z z' hag hz v hv' => by unfold inDom; rw [hag v hv']; exact hz v hv'
   obtain ⟨hx, hcons, hl⟩ := hsat
   obtain ⟨o, ho, hs, hq, hval⟩ := convert_obj_val m cfg x s e hobj hv hwf
   obtain ⟨hoN, _, hocov⟩ := hck.objOK o ho
   have hnl := (convert_roots_val m cfg x hv hwf).mpr ⟨hcons, hl⟩
-  have h := C01_compose_objective (convert m cfg).B m.n0 (convert m cfg).N (convert m cfg).defs _ (convert m cfg).roots
-      (DomB (convert m cfg).N (convert m cfg).B) o
-      (fun z z' hag hz v hv' => by unfold inDom; rw [hag v hv']; exact hz v hv')
-      hperm hwf hck.resN hck.rootsN hck.cov hchain hok
-      (fun y hy d hd => funOK_of_typed _ _ d y (hck.typed d hd) (hvarsN d hd) hy)
-      hoN hocov (fun y _ t ht => by rw [hq] at ht; simp at ht)
-      x (exact_dom m.n0 _ _ m.B0 _ x hwf hck.defd hck.b0 hck.typed hx) hnl
+  have hd0 := exact_dom m.n0 _ _ m.B0 _ x hwf hck.defd hck.b0 hck.typed hx
+  have hd1 := dom1_of_facts m cfg _ hd0 (convert_factsSound m cfg hv x hd0 hnl)
   refine ⟨o, ho, hs, ?_, ?_⟩
-  · obtain ⟨y, hd, hy⟩ := h.1
-    exact ⟨y, hd, by rw [hy, hval]⟩
-  · intro y hd
-    have := h.2 y hd
+  · obtain ⟨y, hdel, hag⟩ := delivered_of_exact m.n0 _ _ _ (convert m cfg).roots _ hDom hperm hwf hck.resN hck.rootsN hchain hok x hd1 hnl
+    refine ⟨y, ⟨hdel.1, hdel.2.1, hdel.2.2.1, fun r hr => hdel.2.2.2 r (List.mem_append_left _ hr)⟩, ?_⟩
+    rw [obj_val_agree _ o _ y hag hoN, hval]
+  · intro y hdel
+    have hd0y := dom1_sub m cfg hv y hdel.2.1
+    have hdel' : Delivered (convert m cfg).N (convert m cfg).defs ((convert m cfg).blocks.map Block.toStep) (convert m cfg).roots
+        (DomB (convert m cfg).N (convert m cfg).B) x y :=
+      ⟨hdel.1, hdel.2.1, hdel.2.2.1, lroots_of_dom m cfg hv hnc y hdel.2.1 hdel.2.2.2⟩
+    have hrel := relaxed_of_delivered _ _ _ _ _ hperm hok x y hdel'
+    have inv := relaxed_invariant (convert m cfg).B0 m.n0 (convert m cfg).N (convert m cfg).defs (convert m cfg).roots x y
+      hwf hck.resN hck.cov
+      (fun d hd => funOK_of_typed _ _ d y (hck.typed d hd) (hvarsN d hd) hd0y)
+      (fun d hd => funOK_of_typed _ _ d _ (hck.typed d hd) (hvarsN d hd) hd0) hrel
+    have hreq := obj_req (convert m cfg).B0 _ _ o y _ hoN hocov
+      (fun t ht => by rw [hq] at ht; simp at ht) (fun t ht => by rw [hq] at ht; simp at ht) inv
+    have := noWorse_of_req _ _ _ hreq
     rw [hval, hs] at this; exact this
 
 /-! ## non-vacuity: a concrete model of the fragment (nesting, a shared subexpression, a logical row, an objective)
@@ -305,5 +429,23 @@ example : ¬ exNL.sat (fun v => if v = 0 then 1 else if v = 1 then 1 else -3) :=
   intro ⟨_, h, _⟩
   have := h _ (List.mem_singleton.mpr rfl)
   simp [inRange, NE.eval, NEs.evals, maxQ] at this; grind
+
+/-! ## non-vacuity of the propagation: `(0 ≤ x1 ∧ x1 ≤ 2)` and `¬(x1 ≤ -1)` as logical rows, linear acceptance set.
+The conjunction is fixed true, its comparisons are fixed true (static rows), the conjunction itself is removed; the negation is
+fixed true, its comparison fixed false. -/
+
+def exNL2 : NLModel :=
+  ⟨3, exB0, none, [],
+   [.and (.cons (.cmp .ge (.v 1) (.c 0)) (.cons (.cmp .le (.v 1) (.c 2)) .nil)), .not (.cmp .le (.v 1) (.c (-1)))]⟩
+
+theorem C01_convert_example_narrowing_infragment :
+    InFragment exNL2 { acc := .linear } ∧
+    ((convert exNL2 { acc := .linear }).blocks.filter (·.removed)).length = 1 ∧
+    (convert exNL2 { acc := .linear }).facts.length = 5 ∧
+    (convert exNL2 { acc := .linear }).shortcut true = false := by decide +kernel
+
+theorem C01_convert_example_narrowing_equiv (x : Asg) :
+    exNL2.sat x ↔ ∃ y, DeliveredC (convert exNL2 { acc := .linear }) x y :=
+  C01_convert_equiv exNL2 _ x C01_convert_example_narrowing_infragment.1
 
 end MpVerif.C01
